@@ -1,4 +1,5 @@
 import RosuModel.Lemmas.SliderEventsMap
+import RosuModel.Lemmas.SliderEventsOrder
 import RosuModel.Props.C02
 import RosuModel.Props.C14
 
@@ -60,6 +61,27 @@ theorem ticks_per_span_equal (A : Arith F) (it : Iter F) (s : Nat) (ds : List F)
     kindCount .tick (spanTicks A it s ds) = ds.length :=
   ⟨spanTicks_perm A it s ds, spanTicks_progress_perm A it s ds, by
     rw [kindCount_spanTicks]; simp⟩
+
+
+/-- **Order within a span** (exact rationals, `span_duration ≥ 0`): the events of a span — its
+ticks in emission order, then its repeat — have non-decreasing times, on even and on odd spans. -/
+theorem span_event_times_sorted (it : Iter Rat) (fuel s : Nat) (hD : 0 ≤ it.spanDur)
+    (l : List (Event Rat)) (h : spanEvents ratArith it fuel s = some l) :
+    l.Pairwise (fun a b => a.time ≤ b.time) :=
+  span_times_sorted it fuel s hD l h
+
+/-- The hypothesis is needed: with a negative span duration the times of a span decrease
+(ticks at 100 and 200 of 250 px, then the repeat). -/
+theorem span_event_times_sorted_needs_nonneg_duration :
+    (spanEvents ratArith ⟨0, -100, 0, 100, 250, 2⟩ 10 0).map (fun l => l.map (·.time)) =
+      some [-40, -80, -100] := by
+  decide +kernel
+
+/-- The final `sort::csharp` (unstable) and the `rotate_left` of `lazy_travel_time` only permute
+the nested objects; what the attributes read of them is permutation invariant. -/
+theorem nested_counts_permutation_invariant (a b : List (Nested F)) (h : a.Perm b) :
+    a.length = b.length ∧ largeTickCount a = largeTickCount b :=
+  nested_counts_perm a b h
 
 /-- **Juice stream.** `span_count + 1` fruits (head, repeats, tail), `span_count · k` droplets, and
 the last record is a fruit. -/
